@@ -92,7 +92,7 @@ pub fn c06_position(p: &Pos, st: &mut Stats) -> CaseResult {
 }
 
 /// E4 three-man basis: both kings on every ordered pair of squares (adjacent ones included), one
-/// further man of every kind and colour on every remaining square (pawns on ranks 2-7)
+/// further man of every kind and colour on every remaining square (pawns on all eight ranks)
 pub const E4_SPACE: u64 = 64 * 64 * 64 * 10;
 pub fn e4_decode(i: u64) -> Option<Pos> {
     let mut i = i;
@@ -108,9 +108,7 @@ pub fn e4_decode(i: u64) -> Option<Pos> {
     }
     let kind = [Kind::Pawn, Kind::Knight, Kind::Bishop, Kind::Rook, Kind::Queen][km % 5];
     let col = if km < 5 { Color::White } else { Color::Black };
-    if kind == Kind::Pawn && (xs / 8 == 0 || xs / 8 == 7) {
-        return None;
-    }
+    // pawns on the first and last rank included: "every placement", legal or not
     let mut p = Pos::empty();
     p.sq[wk] = Some((Color::White, Kind::King));
     p.sq[bk] = Some((Color::Black, Kind::King));
@@ -379,7 +377,153 @@ pub fn run_c06(ctx: &mut Ctx) {
     run_prop(ctx, "raw_placements_kings_close", raw_close_strategy, t.pick(1_500_000, 12_000_000), body, tc);
 }
 
+/// is_check on boards PRODUCED BY THE GENERATOR (they carry last_move, promotion piece, ordering
+/// value - none of which may influence the answer): every successor of the position, both colours.
+pub fn c06_successors(p: &Pos, st: &mut Stats) -> CaseResult {
+    let b = board_of(p)?;
+    let z = crate::props::movegen::hasher();
+    for (mode, succ) in [("full", gen_all(&b, z)), ("capture-only", gen_caps(&b, z))] {
+        for s in &succ {
+            let Ok(sp) = to_pos(s) else { continue };
+            if sp.king_sq(Color::White).is_none() || sp.king_sq(Color::Black).is_none() {
+                continue;
+            }
+            st.eval();
+            for c in [Color::White, Color::Black] {
+                let want = sp.in_check(c);
+                let got = catch(|| is_check(s, ecol_of(c))).map_err(|e| format!("is_check panicked on the {} successor {} of '{}': {}", mode, desc_text(s), p.fen(), e))?;
+                if got != want {
+                    return Err(format!("is_check({:?}) = {} on the {}-generation successor {} of '{}' (position '{}') but under the rules that king is {}", c, got, mode, desc_text(s), p.fen(), sp.fen(), if want { "attacked" } else { "not attacked" }));
+                }
+            }
+            if let Ok(d) = desc(s) {
+                match p.classify(&d) {
+                    MoveClass::EnPassant => {
+                        st.label("successor_by_en_passant");
+                        if sp.in_check(sp.stm) {
+                            st.label("en_passant_successor_gives_check");
+                            st.nontrivial(fp(&(&p.sq, d)));
+                        }
+                    }
+                    MoveClass::Castle => st.label("successor_by_castling"),
+                    MoveClass::Promo | MoveClass::PromoCapture => st.label("successor_by_promotion"),
+                    _ => {}
+                }
+                if sp.in_check(sp.stm) && !sp.man_attacks(d.to, sp.sq[d.to as usize].unwrap_or((Color::White, Kind::Pawn)), sp.king_sq(sp.stm).unwrap()) {
+                    st.label("successor_with_discovered_check");
+                    st.nontrivial(fp(&(&p.sq, d, 1)));
+                }
+            }
+        }
+    }
+    Ok(())
+}
+/// en passant family with the slider on the CAPTURING side (discovered checks through either
+/// vacated square): index space as movegen::E2 with the slider's colour flipped
+fn e2b_decode(i: u64) -> Option<Pos> {
+    let mut i = i;
+    let sk = [Kind::Rook, Kind::Bishop, Kind::Queen][(i % 3) as usize];
+    i /= 3;
+    let ss = (i % 64) as usize;
+    i /= 64;
+    let k_them = (i % 64) as usize;
+    i /= 64;
+    let k_us = (i % 64) as usize;
+    i /= 64;
+    let dir: i8 = if i % 2 == 0 { -1 } else { 1 };
+    i /= 2;
+    let file = (i % 8) as i8;
+    i /= 8;
+    let us = if i % 2 == 0 { Color::White } else { Color::Black };
+    let r5 = if us == Color::White { 4 } else { 3 };
+    let r6 = if us == Color::White { 5 } else { 2 };
+    let ours = mk(file, r5)?;
+    let theirs = mk(file + dir, r5)?;
+    let target = mk(file + dir, r6)?;
+    let mut p = Pos::empty();
+    p.sq[ours as usize] = Some((us, Kind::Pawn));
+    p.sq[theirs as usize] = Some((us.opp(), Kind::Pawn));
+    for s in [k_us, k_them, ss] {
+        if p.sq[s].is_some() || s == target as usize {
+            return None;
+        }
+    }
+    if k_us == k_them || k_us == ss || k_them == ss {
+        return None;
+    }
+    p.sq[k_us] = Some((us, Kind::King));
+    p.sq[k_them] = Some((us.opp(), Kind::King));
+    p.sq[ss] = Some((us, sk));
+    p.stm = us;
+    p.ep = Some(target);
+    if p.is_legal_position() {
+        Some(p)
+    } else {
+        None
+    }
+}
+
+pub fn run_c06_generated(ctx: &mut Ctx) {
+    let t = ctx.tier;
+    run_prop(
+        ctx,
+        "generator_produced_boards_on_walks",
+        move || walk_strategy(t.pick(60, 120)),
+        t.pick(6_000, 100_000),
+        |r, st| {
+            let Some((start, moves)) = play_walk(r) else { return Ok(()) };
+            st.sample(|| json!({"successors_of": start.fen(), "moves": moves.iter().map(mv_name).collect::<Vec<_>>()}));
+            let mut p = start.clone();
+            c06_successors(&p, st)?;
+            for m in &moves {
+                p = p.apply(m);
+                c06_successors(&p, st)?;
+            }
+            Ok(())
+        },
+        |r| match play_walk(r) {
+            Some((s, m)) => json!({"successors_of": s.fen(), "moves": m.iter().map(mv_name).collect::<Vec<_>>()}),
+            None => json!({"fen": null}),
+        },
+    );
+    let body = |r: &PlacementRecipe, st: &mut Stats| {
+        let Some(p) = build_placement(r) else { return Ok(()) };
+        st.sample(|| json!({"successors_of": p.fen(), "moves": []}));
+        c06_successors(&p, st)
+    };
+    let tc = |r: &PlacementRecipe| json!({"successors_of": build_placement(r).map(|p| p.fen()), "moves": []});
+    run_prop(ctx, "generator_produced_boards_ep_placements", placement_ep, t.pick(100_000, 2_000_000), body, tc);
+    run_prop(ctx, "generator_produced_boards_promo_placements", placement_promo, t.pick(40_000, 800_000), body, tc);
+    let stride: u64 = t.pick(29, 1);
+    let offset = if stride > 1 { ctx.seed % stride } else { 0 };
+    let space = crate::props::movegen::E2_SPACE;
+    run_enum(
+        ctx,
+        if stride == 1 { "E2b_en_passant_with_own_slider_exhaustive" } else { "E2b_en_passant_with_own_slider_strided" },
+        space / stride,
+        stride == 1,
+        move |j, st| {
+            let Some(p) = e2b_decode(j * stride + offset) else { return Ok(()) };
+            c06_successors(&p, st)
+        },
+        move |j| json!({"successors_of": e2b_decode(j * stride + offset).map(|p| p.fen()), "moves": []}),
+    );
+}
+
 pub fn replay_c06(case: &Value) -> CaseResult {
+    if let Some(f) = case.get("successors_of").and_then(|x| x.as_str()) {
+        let mut p = Pos::parse_fen(f).ok_or("fen does not parse")?;
+        let mut st = Stats::new();
+        c06_successors(&p, &mut st)?;
+        if let Some(arr) = case.get("moves").and_then(|x| x.as_array()) {
+            for m in arr {
+                let mv = parse_mv(m.as_str().unwrap_or("")).ok_or("bad move")?;
+                p = p.apply(&mv);
+                c06_successors(&p, &mut st)?;
+            }
+        }
+        return Ok(());
+    }
     let fen = case.get("fen").and_then(|x| x.as_str()).ok_or("no fen in replay case")?;
     let p = Pos::parse_fen(fen).ok_or("fen does not parse")?;
     c06_position(&p, &mut Stats::new())
@@ -433,6 +577,9 @@ pub fn c14_position(p: &Pos, extra: u16, st: &mut Stats) -> CaseResult {
     }
     if *p != m {
         st.nontrivial(fp(&(&p.sq, p.stm)));
+    }
+    if p.sq.iter().filter(|x| matches!(x, Some((_, Kind::King)))).count() > 2 {
+        st.label("placement_with_surplus_kings");
     }
     st.label(match v.abs() {
         0 => "eval_zero",
@@ -544,6 +691,16 @@ pub fn build_material(r: &MaterialRecipe) -> Option<Pos> {
         }
         cnt[w as usize][k] += 1;
         p.sq[s as usize] = Some((if w { Color::White } else { Color::Black }, [Kind::Pawn, Kind::Knight, Kind::Bishop, Kind::Rook, Kind::Queen][k]));
+    }
+    // one case in sixteen carries surplus kings ("any placement"): the evaluation's relations are
+    // stated for placements, not only for legal ones
+    if r.extra & 0xF000 == 0xF000 {
+        for i in 0..(1 + (r.extra >> 8) % 3) as usize {
+            let s = ((r.extra as usize).wrapping_mul(31).wrapping_add(i * 17)) % 64;
+            if p.sq[s].is_none() {
+                p.sq[s] = Some((if (r.extra >> (4 + i)) & 1 == 1 { Color::White } else { Color::Black }, Kind::King));
+            }
+        }
     }
     p.stm = if r.wtm { Color::White } else { Color::Black };
     Some(p)
